@@ -149,9 +149,17 @@ def get_current_url(
     """
     url = [scheme, "://", host]
 
+    def to_iri() -> str:
+        try:
+            return uri_to_iri("".join(url))
+        except ValueError as e:
+            # Only the client controlled host can be invalid here, such
+            # as a non-numeric port or unbalanced brackets.
+            raise SecurityError(f"Host {host!r} is not valid.") from e
+
     if root_path is None:
         url.append("/")
-        return uri_to_iri("".join(url))
+        return to_iri()
 
     # safe = https://url.spec.whatwg.org/#url-path-segment-string
     # as well as percent for things that are already quoted
@@ -159,7 +167,7 @@ def get_current_url(
     url.append("/")
 
     if path is None:
-        return uri_to_iri("".join(url))
+        return to_iri()
 
     url.append(quote(path.lstrip("/"), safe="!$&'()*+,/:;=@"))
 
@@ -167,7 +175,7 @@ def get_current_url(
         url.append("?")
         url.append(quote(query_string, safe="!$&'()*+,/:;=?@%"))
 
-    return uri_to_iri("".join(url))
+    return to_iri()
 
 
 def get_content_length(
